@@ -190,12 +190,7 @@ def _env(case, b):
 
 
 def _set_body(b, body):
-    for f in ("fail", "sysexit"):
-        p = b / "ctl" / f
-        if p.exists():
-            p.unlink()
-    if body in ("fail", "sysexit"):
-        (b / "ctl" / body).touch()
+    jp.set_body(str(b / "ctl"), body)
 
 
 def inproc(spec: dict, env: dict) -> dict:
